@@ -257,6 +257,11 @@ def run(cx):
                         elif e == "None{}":
                             g, _ = dnf_holds(alts, [[r"!arg1\.config\.endpoint_config\.keepalive"]])
                             okN = g
+                    # `cfg.keepalive.then_some(cfg.keepalive_interval_ms)` is the same option
+                    for dloc, kind, node in b.defs.get(l, []):
+                        if kind == "call" and show(b.call_expr(node)) in (
+                                "bool::then_some(arg1.config.endpoint_config.keepalive,arg1.config.endpoint_config.keepalive_interval_ms)",):
+                            okS = okN = True
                     inst.site(b, loc, "Config.keepalive_interval_ms = keepalive ? Some(interval) : None", {"some_ok": okS, "none_ok": okN})
                     if not (okS and okN):
                         inst.violation(b.path, "keepalive option", "keepalive_interval_ms is not `if keepalive {Some(interval)} else {None}`", at=b.span_at(loc))
